@@ -406,11 +406,13 @@ func validateRequired(v interface{}, name string) error {
 	if v == nil {
 		return ErrRequired
 	}
-	val := reflect.ValueOf(v)
-	if val.Kind() == reflect.Ptr && val.IsNil() {
-		return ErrRequired
+	val := chaseValue(reflect.ValueOf(v))
+	if (val.Kind() == reflect.Ptr || val.Kind() == reflect.Interface) && val.IsNil() {
+		return ErrRequired // nil, also at the end of a chain of pointers
 	}
 	if isInt(val.Kind()) || isUint(val.Kind()) || isFloat(val.Kind()) {
+		// numbers behind pointers (pre-filled *int, the pointer an Unpacker type
+		// is validated through) are judged like plain numbers
 		if err := validateNonZero(v, name); err != nil {
 			return ErrRequired
 		}
